@@ -219,7 +219,15 @@ func (e *exec) selectionSet(sel ast.SelectionSet, objType, objID, path string) (
 		for _, ff := range g.fields {
 			merged = append(merged, ff.SelectionSet...)
 		}
-		v := e.field(objType, objID, fd, f, merged, fpath)
+		var v *parsers.J
+		if path == "" && e.env.Plan.RootIcptPanics[g.key] {
+			// the root-field interceptor panics before it calls next: nothing of this root runs
+			e.res.Panics++
+			e.addErr(fpath, "R:panic")
+			v = parsers.NewNull()
+		} else {
+			v = e.field(objType, objID, fd, f, merged, fpath)
+		}
 		if e.env.InFailedGroup != nil && e.env.InFailedGroup(path, g.key) {
 			if v.IsNull() && fd.Type.NonNull {
 				if e.res.GroupViolation == nil {
@@ -324,6 +332,16 @@ func (e *exec) fieldInner(objType, objID string, fd *ast.FieldDefinition, f *ast
 			e.addErr(path, "A:panic")
 		} else {
 			e.addErr(path, "A:error")
+		}
+		return parsers.NewNull()
+	}
+	if k, ok := p.IcptFaults[path]; ok {
+		// the field interceptor fails before it calls next: neither directives nor the resolver run
+		if k == KPanic {
+			e.res.Panics++
+			e.addErr(path, "I:panic")
+		} else {
+			e.addErr(path, "I:error")
 		}
 		return parsers.NewNull()
 	}
@@ -479,7 +497,7 @@ func SortedErrs(errs []Err) []string {
 // ClassOf maps a message from a real response to the class used by the model.
 func ClassOf(msg string) string {
 	switch {
-	case strings.HasPrefix(msg, "E:"), strings.HasPrefix(msg, "D:"), strings.HasPrefix(msg, "P:"), strings.HasPrefix(msg, "A:"), strings.HasPrefix(msg, "M:"), strings.HasPrefix(msg, "O:"):
+	case strings.HasPrefix(msg, "E:"), strings.HasPrefix(msg, "D:"), strings.HasPrefix(msg, "P:"), strings.HasPrefix(msg, "A:"), strings.HasPrefix(msg, "M:"), strings.HasPrefix(msg, "O:"), strings.HasPrefix(msg, "I:"), strings.HasPrefix(msg, "R:"):
 		return msg
 	case strings.HasPrefix(msg, "recovered:"):
 		return strings.TrimPrefix(msg, "recovered:")
